@@ -4,6 +4,7 @@ package main
 
 import (
 	"fmt"
+	"regexp"
 	"go/types"
 	"math/big"
 	"strings"
@@ -99,8 +100,19 @@ func isPointerLike(t types.Type) bool {
 
 var shapeMemo = map[string][]Sort{}
 
+var aliasRe = regexp.MustCompile(`\b(byte|rune)\b`)
+
 func typeKey(t types.Type) string {
-	return types.TypeString(t, func(p *types.Package) string { return p.Path() })
+	s := types.TypeString(t, func(p *types.Package) string { return p.Path() })
+	if strings.Contains(s, "byte") || strings.Contains(s, "rune") {
+		s = aliasRe.ReplaceAllStringFunc(s, func(m string) string {
+			if m == "byte" {
+				return "uint8"
+			}
+			return "int32"
+		})
+	}
+	return s
 }
 
 func shortTypeKey(t types.Type) string {
